@@ -284,10 +284,17 @@ def opFaults (args : List String) (impl : String) : Verdict :=
                     else if res.contains "HashMismatch" then some s!"{part.take 30}: fault reported as hash mismatch"
                     else if a != "a0" then some s!"{part.take 30}: further calls on the failed object"
                     else if p != "p1" then some s!"{part.take 30}: output is not a prefix of the fault-free run"
-                    else if !(res == s!"Io({kd}*)" || res.startsWith "ParentWrite" || res.startsWith "LeafWrite"
-                              || res.startsWith "ParentNotFound" || res.startsWith "LeafNotFound" || res == "SendErr") then
-                      some s!"{part.take 30}: {kd} fault reported as {res}"
-                    else none
+                    else
+                      -- the io error itself; the write-failed error only for a connection reset on a
+                      -- writer; the not-found error only for end-of-stream on the stream reader
+                      let obj := (part.splitOn "@").head!
+                      let okIo := res == s!"Io({kd}*)"
+                      let okWrite := (res.startsWith "ParentWrite" || res.startsWith "LeafWrite") && obj == "w" && kd == "ConnectionReset"
+                      let okNotFound := (res.startsWith "ParentNotFound" || res.startsWith "LeafNotFound") && obj == "r" && kd == "UnexpectedEof"
+                      let okSend := res == "SendErr" && obj == "s"
+                      if !(okIo || okWrite || okNotFound || okSend) then
+                        some s!"{part.take 30}: {kd} fault on {obj} reported as {res}"
+                      else none
                   | _ => some "malformed"
                 | _ => some "malformed"
           { model := m, specFail := sf, nontrivial := tr.length > 2 }
